@@ -93,6 +93,65 @@ def generate(rng: random.Random, tier: str):
                     yield cs
 
 
+    # mark-step pairs over overlapping ranges whose marks have the SAME TYPE but different attributes (links with
+    # different hrefs, comments with different ids): these must not merge; and replace pairs whose first slice is
+    # open on the left (the seam is measured in inserted tokens, not in content size)
+    for fam in ("basic", "blockmarks"):
+        g, docs = S.family_docs(rng, fam, 4 if quick else 40)
+        sc = gen.family(fam)
+        typed = [n for n, mt in sc.marks.items() if mt.attrs]
+        for doc in docs:
+            ps = S.boundary_positions(doc)
+            for _ in range(8 if quick else 30):
+                name = rng.choice(typed)
+                mt = sc.marks[name]
+
+                def mk(v):
+                    return mt.create({an: (v if an != "id" else (1 if v == "foo" else 2)) for an in mt.attrs})
+                m1, m2 = mk("foo"), (mk("bar") if rng.random() < 0.7 else mk("foo"))
+                a, c = sorted((rng.choice(ps), rng.choice(ps)))
+                a2 = rng.choice([p for p in ps if p <= c])
+                c2 = rng.choice([p for p in ps if p >= max(a, a2)])
+                cls = AddMarkStep if rng.random() < 0.5 else RemoveMarkStep
+                cs = merge_case(fam, doc, cls(a, c, m1), cls(a2, c2, m2), "mark-pair-same-type")
+                if cs:
+                    yield cs
+            for _ in range(6 if quick else 25):
+                src = rng.choice(docs)
+                sps = S.boundary_positions(src)
+                inside = [p for p in sps if src.resolve(p).parent.is_textblock]
+                if not inside:
+                    continue
+                x = rng.choice(inside)
+                rx = src.resolve(x)
+                y = rx.after(rng.randint(1, rx.depth))      # a block boundary behind x: open on the left only
+                try:
+                    sl1 = src.slice(x, y)
+                except ValueError:
+                    continue
+                if not sl1.open_start or sl1.open_end:
+                    continue
+                dps = [p for p in S.boundary_positions(doc) if doc.resolve(p).depth >= sl1.open_start
+                       and doc.resolve(p).parent.is_textblock]
+                if not dps:
+                    continue
+                a = rng.choice(dps)
+                ra = doc.resolve(a)
+                c = ra.after(ra.depth - sl1.open_start + 1)
+                s1 = ReplaceStep(a, c, sl1)
+                ap = S.Applied(S.info_for(fam), doc, s1)
+                if ap.res_doc is None:
+                    continue
+                d1 = ap.res_doc
+                for f2 in (a + sl1.size, a + sl1.content.size):
+                    if 0 <= f2 <= d1.content.size:
+                        t2 = rng.choice([p for p in S.boundary_positions(d1) if p >= f2] or [f2])
+                        sl2 = Slice.empty if rng.random() < 0.5 else Slice(Fragment.from_(sc.text("x")), 0, 0)
+                        cs = merge_case(fam, doc, s1, ReplaceStep(f2, t2, sl2), "replace-pair-open-left")
+                        if cs:
+                            yield cs
+
+
 def rebuild(desc):
     sc = gen.family(desc["family"])
     doc = Node.from_json(sc, desc["doc"])
